@@ -1,6 +1,7 @@
 package eng
 
 import (
+	"os"
 	"fmt"
 	"go/ast"
 	"go/types"
@@ -212,7 +213,7 @@ func (e *Engine) doCall(s *State, d deferred, in ssa.Instruction) []callOut {
 		var rt types.Type
 		return []callOut{{s, e.applyContract(s, ct, fn, fn.Signature, rt, d.args, in, key)}}
 	}
-	if own && len(fn.Blocks) > 0 && (ct != nil && ct.Flag("inline") || e.canInline(fn) || e.isPrivateHelper(fn)) {
+	if own && len(fn.Blocks) > 0 && (ct != nil && ct.Flag("inline") || e.canInline(fn) || e.isPrivateHelper(fn) || ct == nil && e.smallHelper(fn)) {
 		return e.inline(s, fn, d.args, binds, in, key)
 	}
 	return []callOut{{s, e.unknownCall(s, key, resT, d.args, in)}}
@@ -354,6 +355,7 @@ func (e *Engine) applyContract(s *State, ct *Contract, fn *ssa.Function, sig *ty
 		}
 	} else {
 		// interface method: receiver is "self", then declared parameter names
+		ctx.NoAlias = true
 		ctx.Params["self"] = args[0]
 		ctx.PTypes["self"] = recvT
 		idx = 1
@@ -624,6 +626,10 @@ func (e *Engine) havocMapAt(s *State, mt *types.Map, m string) {
 
 // callMods is the static over-approximation of what a call inside a loop may modify.
 func (e *Engine) callMods(c *ssa.CallCommon, m *mods) {
+	e.callModsDepth(c, m, map[*ssa.Alloc]bool{}, 0)
+}
+
+func (e *Engine) callModsDepth(c *ssa.CallCommon, m *mods, seen map[*ssa.Alloc]bool, depth int) {
 	if b, ok := c.Value.(*ssa.Builtin); ok {
 		switch b.Name() {
 		case "append", "copy":
@@ -679,6 +685,21 @@ func (e *Engine) callMods(c *ssa.CallCommon, m *mods) {
 			}
 		}
 		return
+	}
+	// an uncontracted small helper of the module is inlined at the call: what its body may modify
+	if f := c.StaticCallee(); f != nil && e.C.Funcs[key] == nil && depth < 4 && !e.Cfg.NoAutoInline && f.Pkg != nil && strings.HasPrefix(f.Pkg.Pkg.Path(), e.P.ModPrefix) && SmallHelperStatic(e.P, f) {
+		for _, b := range f.Blocks {
+			for _, in := range b.Instrs {
+				if _, ok := in.(*ssa.RunDefers); ok {
+					continue // a small helper has no defer: nothing runs here
+				}
+				e.instrMods(in, seen, m, depth+1)
+			}
+		}
+		return
+	}
+	if os.Getenv("GOVC_DEBUG_HAVOC") != "" {
+		fmt.Fprintf(os.Stderr, "callMods: all because of %q (%v) depth %d\n", key, c, depth)
 	}
 	m.all = true
 }
@@ -931,4 +952,79 @@ func (e *Engine) interfereMapAt(s *State, mt *types.Map, m string) {
 	nl := e.declare(s, "mlen", "Int")
 	s.assume(app(">=", nl, "0"))
 	e.interfere(s, ml, "(Array Int Int)", m, nl)
+}
+
+// smallHelper: an uncontracted function of the module that is small, loop-free and not recursive is
+// verified as part of its caller (so factoring a few lines out of a function under contract does not
+// turn them into an unknown call with unknown preconditions).
+func (e *Engine) smallHelper(fn *ssa.Function) bool {
+	if e.Cfg.NoAutoInline || len(e.inlineStack) >= 4 {
+		return false
+	}
+	k := e.P.FuncKey(fn)
+	if k == e.FnKey {
+		return false
+	}
+	for _, x := range e.inlineStack {
+		if x == k {
+			return false
+		}
+	}
+	return SmallHelperStatic(e.P, fn)
+}
+
+// SmallHelperStatic: the static part of the helper test (size, no loop, no goroutine/select/defer/range,
+// not recursive, not a closure).
+func SmallHelperStatic(p *Program, fn *ssa.Function) bool {
+	if fn == nil || len(fn.Blocks) == 0 || p.Recursive(fn) || fn.Parent() != nil || fn.Synthetic != "" {
+		return false
+	}
+	n := 0
+	for _, b := range fn.Blocks {
+		n += len(b.Instrs)
+		for _, in := range b.Instrs {
+			switch in.(type) {
+			case *ssa.Go, *ssa.Select, *ssa.Defer, *ssa.Range:
+				return false
+			}
+		}
+		for _, succ := range b.Succs {
+			if succ.Index <= b.Index {
+				return false // back edge: a loop
+			}
+		}
+	}
+	return n <= 80
+}
+
+// InlinedEverywhere: an unexported small helper that is only ever called directly (never spawned,
+// deferred, stored or passed as a value) is checked in the context of each of its callers and needs no
+// verification on its own (where it would lack the preconditions its callers establish).
+func InlinedEverywhere(p *Program, fn *ssa.Function) bool {
+	if !SmallHelperStatic(p, fn) || fn.Object() == nil || fn.Object().Exported() {
+		return false
+	}
+	called := false
+	for _, g := range p.All {
+		for _, b := range g.Blocks {
+			for _, in := range b.Instrs {
+				for _, op := range in.Operands(nil) {
+					if *op != ssa.Value(fn) {
+						continue
+					}
+					c, ok := in.(*ssa.Call)
+					if !ok || c.Call.StaticCallee() != fn || c.Call.Value != ssa.Value(fn) {
+						return false
+					}
+					for _, a := range c.Call.Args {
+						if a == ssa.Value(fn) {
+							return false
+						}
+					}
+					called = true
+				}
+			}
+		}
+	}
+	return called
 }
